@@ -1156,6 +1156,18 @@ func TestVerif(t *testing.T) {
 			fmt.Println("cannot read replay:", err)
 			os.Exit(2)
 		}
+		if sc.Kind == "mixed" {
+			var mc MixedCase
+			if err := vlib.ReplayCase(env.Replay, &mc); err != nil {
+				fmt.Println("cannot read replay:", err)
+				os.Exit(2)
+			}
+			fmt.Printf("replay of %+v (real threads, in a child process)\n", mc)
+			if !replayMixed(mc) {
+				os.Exit(1)
+			}
+			return
+		}
 		if sc.Kind == "stress" {
 			var st StressCase
 			if err := vlib.ReplayCase(env.Replay, &st); err != nil {
@@ -1205,6 +1217,8 @@ func TestVerif(t *testing.T) {
 		outOfRange = true
 		res.Write(env.Out)
 	}
+	// failing calls whose errors are of different dynamic types, each case in a child process (mixed_test.go)
+	mixedPhase(res, env.Out)
 	// probe: Do/DoContext on small configurations before anything else (see outOfRange)
 	for _, mode := range []string{"do", "dc"} {
 		for p := -1; p <= 3; p++ {
